@@ -46,6 +46,7 @@ def run(chk):
     an = ip.an
     from analysis.absint import Analyzer
     an = Analyzer(f, interproc=ip)
+    an.prune = False        # R-TOPMOST asks what a local held just before it is overwritten (dead by then)
     an.analyze(b, collect=False)
     ins = an.res.in_states
     eb = ExprBuilder(b)
